@@ -14,12 +14,12 @@ void run(const char* type) {
         const int mode = ROUND_MODES[mi];
         fp_set(mode, false);
         std::string sfx = std::string("@") + round_name(mode);
-        fdrive_unary<V, T>("C11", type, ("ceil" + sfx).c_str(), vals, [](V a) { return avel::to_array(avel::ceil(a)); }, [](T a, T& o) { volatile T x = a; o = std::ceil(x); return true; }, eq);
-        fdrive_unary<V, T>("C11", type, ("floor" + sfx).c_str(), vals, [](V a) { return avel::to_array(avel::floor(a)); }, [](T a, T& o) { volatile T x = a; o = std::floor(x); return true; }, eq);
-        fdrive_unary<V, T>("C11", type, ("trunc" + sfx).c_str(), vals, [](V a) { return avel::to_array(avel::trunc(a)); }, [](T a, T& o) { volatile T x = a; o = std::trunc(x); return true; }, eq);
-        fdrive_unary<V, T>("C11", type, ("round" + sfx).c_str(), vals, [](V a) { return avel::to_array(avel::round(a)); }, [](T a, T& o) { volatile T x = a; o = std::round(x); return true; }, eq);
-        fdrive_unary<V, T>("C11", type, ("nearbyint" + sfx).c_str(), vals, [](V a) { return avel::to_array(avel::nearbyint(a)); }, [](T a, T& o) { volatile T x = a; o = std::nearbyint(x); return true; }, eq);
-        fdrive_unary<V, T>("C11", type, ("rint" + sfx).c_str(), vals, [](V a) { return avel::to_array(avel::rint(a)); }, [](T a, T& o) { volatile T x = a; o = std::rint(x); return true; }, eq);
+        fdrive_unary<V, T>("C11", type, ("ceil" + sfx).c_str(), vals, [](V a) { return avel::to_array(avel::ceil(a)); }, [](T a, T& o) { o = Libm<T>::ceil()(a); return true; }, eq);
+        fdrive_unary<V, T>("C11", type, ("floor" + sfx).c_str(), vals, [](V a) { return avel::to_array(avel::floor(a)); }, [](T a, T& o) { o = Libm<T>::floor()(a); return true; }, eq);
+        fdrive_unary<V, T>("C11", type, ("trunc" + sfx).c_str(), vals, [](V a) { return avel::to_array(avel::trunc(a)); }, [](T a, T& o) { o = Libm<T>::trunc()(a); return true; }, eq);
+        fdrive_unary<V, T>("C11", type, ("round" + sfx).c_str(), vals, [](V a) { return avel::to_array(avel::round(a)); }, [](T a, T& o) { o = Libm<T>::round()(a); return true; }, eq);
+        fdrive_unary<V, T>("C11", type, ("nearbyint" + sfx).c_str(), vals, [](V a) { return avel::to_array(avel::nearbyint(a)); }, [](T a, T& o) { o = Libm<T>::nearbyint()(a); return true; }, eq);
+        fdrive_unary<V, T>("C11", type, ("rint" + sfx).c_str(), vals, [](V a) { return avel::to_array(avel::rint(a)); }, [](T a, T& o) { o = Libm<T>::rint()(a); return true; }, eq);
     }
     fp_set(FE_TONEAREST, false);
 }
